@@ -148,9 +148,10 @@ def manager_histories(g, idx, res, with_child):
     sib2["simulation"]["num_months"] = 25 if cfg["simulation"]["num_months"] != 25 else 24
     # the siblings must run BEFORE the scenario in a process that has never seen it (the reference above was computed first in
     # this process), so this history runs in a child interpreter: sibling (media), sibling (loads), then the scenario itself
-    d7 = child_digest(cfg, before=[sib, sib2])
-    res["designs"] += 3
-    cmp("fresh-process-after-sibling-designs-with-other-media-and-loads", tuple(d7), tuple(ref), 3)
+    if res.get("do_sibling", True):
+        d7 = child_digest(cfg, before=[sib, sib2])
+        res["designs"] += 3
+        cmp("fresh-process-after-sibling-designs-with-other-media-and-loads", tuple(d7), tuple(ref), 3)
     if with_child:
         d6 = child_digest(cfg)
         res["designs"] += 1
@@ -172,13 +173,32 @@ def object_histories(g, idx, res):
     case = {"phys": ph, "grid": len(coords), "loads": desc, "flow": flow}
     out = []
 
+    # the object either starts the way the searches build it (one curve, then the bracketing family) or the way a user of the GHE
+    # class builds it: with its own family of long-time curves (here 4 heights that are NOT the bracketing ones)
+    own_family = bool(g.random() < 0.4)
+    heights = sorted([hmin * 0.9, hmax * 1.05] + [float(round(h, 1)) for h in g.uniform(hmin * 1.1, hmax * 0.9, 2)]) if own_family else None
+    case_family = heights
+
     def fresh():
+        if own_family:
+            from ghedesigner.gfunction import calc_g_func_for_multiple_lengths
+            from ghedesigner.utilities import borehole_spacing, eskilson_log_times
+
+            ghe = GG.make_ghe(ph, coords, 100.0, flow, loads, 12, hmax=hmax, hmin=hmin, real_g=False, rgen=np.random.default_rng(1))
+            pt, fluid, bh, pipe, grout, soil = GP.bhe_objects(ph, 100.0)
+            gf = quiet(lambda: calc_g_func_for_multiple_lengths(borehole_spacing(bh, coords), heights, bh.r_b, bh.D, ghe.bhe.m_flow_borehole, pt,
+                                                                 eskilson_log_times(), coords, fluid, pipe, grout, soil))
+            ghe.gFunction = gf
+            return ghe
         ghe = GG.make_ghe(ph, coords, 100.0, flow, loads, 12, hmax=hmax, hmin=hmin, real_g=True)
         quiet(ghe.compute_g_functions)
         return ghe
 
     def do(ghe, op):
         kind = op[0]
+        if kind == "recompute":
+            quiet(ghe.compute_g_functions)
+            return ("recompute",)
         if kind == "size":
             quiet(lambda: ghe.size(method=TimestepType.HYBRID))
             return ("size", float(ghe.bhe.b.H), hashlib.sha256(np.asarray(ghe.hp_eft, dtype=float).tobytes()).hexdigest()[:16])
@@ -190,8 +210,12 @@ def object_histories(g, idx, res):
     n_ops = int(g.integers(2, 5))
     ops = []
     for _ in range(n_ops):
-        k = str(g.choice(["hybrid", "hybrid", "hourly", "size"]))
+        k = str(g.choice(["hybrid", "hybrid", "hourly", "size", "recompute"]))
+        if k == "size" and own_family and "recompute" not in [o[0] for o in ops]:
+            k = "hybrid"  # sizing needs curves that bracket the height window
         ops.append((k, float(round(g.uniform(hmin, hmax), 2))))
+    if own_family and "recompute" not in [o[0] for o in ops]:
+        ops.insert(int(g.integers(1, len(ops) + 1)), ("recompute", 0.0))
     final = (str(g.choice(["hybrid", "hourly", "size"])), float(round(g.uniform(hmin, hmax), 2)))
     a = fresh()
     trail = []
@@ -208,6 +232,9 @@ def object_histories(g, idx, res):
         res["object_histories"] += 1
         return out, case
     b = fresh()
+    for op in ops:
+        if op[0] == "recompute":
+            do(b, op)  # structural operations are part of the object's configuration; only the earlier SIMULATIONS are left out
     exp = do(b, final)
     res["object_histories"] += 1
     res["comparisons"] += 1
@@ -224,7 +251,8 @@ def object_histories(g, idx, res):
 
 def run_shard(spec):
     g = rng(spec["seed"], PROP, spec["shard"])
-    res = {"viol": [], "nontrivial": [], "samples": [], "designs": 0, "comparisons": 0, "histories": {}, "object_histories": 0, "allow_rowwise": spec["rowwise"]}
+    res = {"viol": [], "nontrivial": [], "samples": [], "designs": 0, "comparisons": 0, "histories": {}, "object_histories": 0, "allow_rowwise": spec["rowwise"],
+           "do_sibling": spec.get("sibling", True)}
     for i in range(spec["n_mgr"]):
         idx = spec["shard"] + NSHARDS * i
         try:
@@ -250,14 +278,15 @@ def run_shard(spec):
 
 
 def check(tier, seed):
-    specs = [{"seed": seed, "shard": s, "n_mgr": {"quick": 1, "thorough": 8}[tier], "n_obj": {"quick": 3, "thorough": 24}[tier], "rowwise": tier == "thorough"} for s in range(NSHARDS)]
+    specs = [{"seed": seed, "shard": s, "n_mgr": {"quick": 1, "thorough": 8}[tier], "n_obj": {"quick": 2, "thorough": 24}[tier], "rowwise": tier == "thorough", "sibling": (tier == "thorough" or s % 2 == 0)} for s in range(NSHARDS)]
     results = run_pool("vf.props.C13", specs, timeout=7200)
     rep = Report(PROP)
     rep.rule = (
         "manager level: small scenarios of all bisection methods (RowWise in the thorough tier), 12-37 months, each run fresh and then through six "
         "histories (find_design twice, set_design + find_design again, permuted setter order, other nominal height, after two unrelated designs, "
         "after two sibling designs that differ only in media / only in loads, limits and horizon, second process with another PYTHONHASHSEED); object level: one real GHE (pygfunction MIFT family of three heights) driven by 2-4 random "
-        "operations among simulate(HYBRID), simulate(HOURLY, 12 months), size() at random heights, then one final operation compared bit for bit "
+        "operations among simulate(HYBRID), simulate(HOURLY, 12 months), size(), compute_g_functions() at random heights (40 % of the objects start "
+        "with their own 4-height family instead of the bracketing one), then one final operation compared bit for bit "
         "with a fresh object. non-trivial = history with >= 2 operations of different kind before the compared one; distinct by inputs."
     )
     hist = {}
